@@ -279,6 +279,24 @@ func c10Run(c c10Case) (v vVerdict) {
 			return nil
 		}
 		inner, e.any = as, &as.AnySource
+	case "lancero":
+		ls, err := NewLanceroSource()
+		if err != nil {
+			return vFailf("harness", "%v", err)
+		}
+		cg := filepath.Join(root, "cringeGlobals.json")
+		oldPath := cringeGlobalsPath
+		cringeGlobalsPath = cg
+		defer func() { cringeGlobalsPath = oldPath }()
+		reconfigure = func(n int) error {
+			rows := 2 + n%3
+			os.WriteFile(cg, []byte(fmt.Sprintf(`{"SETT":1,"seqln":%d,"lsync":20000,"testpattern":0,"propagationdelay":0,"NSAMP":4,"carddelay":0,"XPT":0}`, rows)), 0o644)
+			card := &vLiveCard{cols: 1, rows: rows, period: time.Duration(20000 * rows * 8), t0: vPipeT0}
+			ls.devices = map[int]*LanceroDevice{0: {devnum: 0, card: card}}
+			ls.ncards = 1
+			return ls.Configure(&LanceroSourceConfig{FiberMask: 0xffff, ActiveCards: []int{0}, CardDelay: []int{1}, FirstRow: 1})
+		}
+		inner, e.any = ls, &ls.AnySource
 	case "udp":
 		as, err := NewAbacoSource()
 		if err != nil {
@@ -616,7 +634,7 @@ func c10Run(c c10Case) (v vVerdict) {
 }
 
 func c10Gen(t *rapid.T) c10Case {
-	c := c10Case{Source: rapid.SampledFrom([]string{"scripted", "scripted", "scripted", "scripted", "triangle", "simpulse", "erroring", "abaco", "udp"}).Draw(t, "source"),
+	c := c10Case{Source: rapid.SampledFrom([]string{"scripted", "scripted", "scripted", "scripted", "triangle", "simpulse", "erroring", "abaco", "udp", "lancero"}).Draw(t, "source"),
 		Nchan: rapid.IntRange(1, 4).Draw(t, "nchan")}
 	stops := func() c10Op {
 		k := rapid.SampledFrom([]int{1, 1, 2, 3, 4}).Draw(t, "k")
@@ -627,7 +645,7 @@ func c10Gen(t *rapid.T) c10Case {
 		return op
 	}
 	nrounds := rapid.IntRange(1, 3).Draw(t, "rounds")
-	if c.Source == "abaco" || c.Source == "udp" {
+	if c.Source == "abaco" || c.Source == "udp" || c.Source == "lancero" {
 		nrounds = rapid.IntRange(1, 2).Draw(t, "rounds2")
 	}
 	for r := 0; r < nrounds; r++ {
